@@ -298,6 +298,16 @@ def run(tier='quick'):
     B14 = chk.rule('B14', 'the multi-statement table operations (playlist_table::add / update / remove, playlist_entity_table::add_back) rely on the transaction guard: BEGIN, COMMIT with the flag set only after it succeeded, ROLLBACK exactly when not committed', floor=4)
     from . import c14 as _c14g
     _c14g._guard_shape(prog, eff, chk, B14)
+    from . import extra as _extra
+    B15 = chk.rule('B15', 'a byte taken from a stored blob means 0..255: no (signed) char read through a pointer is widened '
+                          'without going through an unsigned 8-bit type (a label of 128..255 bytes would otherwise be written '
+                          'and then refused on read)', floor=1)
+    _extra.bytes_read_unsigned(prog, chk, B15)
+    B16 = chk.rule('B16', 'conversions between row fields and stored text / numbers do not depend on the process environment: '
+                          'no repository function calls a time-zone, locale or environment dependent C routine (mktime, '
+                          'localtime, strtod, setlocale, getenv ...), so that a time point written is the time point read '
+                          'under every TZ', floor=1)
+    _extra.environment_independent(prog, chk, B16)
     return chk.finish('statement-level analysis of the five 2.x table classes: %d statement instances '
                       'parsed from string literals, binds and sinks resolved to row fields through the '
                       'type-checked AST, names resolved against the DDL of all %d 2.x versions' % (
